@@ -194,35 +194,50 @@ func TestVerifC08Ntor(t *testing.T) {
 		// 3. transcript binding: one flipped bit changes both outputs
 		field := rapid.SampledFrom([]string{"NODEID", "B", "X", "Y"}).Draw(rt, "flipField")
 		var ks2, au2 []byte
+		var ref2 refntor.Result
+		var ok2s bool
 		switch field {
 		case "NODEID":
 			bit := rapid.IntRange(0, 159).Draw(rt, "flipBit")
 			id2 := append([]byte(nil), id...)
 			id2[bit/8] ^= 1 << uint(bit%8)
 			n2, _ := NewNodeID(id2)
-			_, k, a := ClientHandshake(xKP, yKP.Public(), idKP.Public(), n2)
+			ok2, k, a := ClientHandshake(xKP, yKP.Public(), idKP.Public(), n2)
 			ks2, au2 = k.Bytes()[:], a.Bytes()[:]
+			ref2 = refntor.Client(x, X, Y, B, id2, true)
+			ok2s = ok2
 		case "B":
 			bit := rapid.IntRange(0, 255).Draw(rt, "flipBit")
 			b2 := append([]byte(nil), B...)
 			b2[bit/8] ^= 1 << uint(bit%8)
 			p2, _ := NewPublicKey(b2)
-			_, k, a := ClientHandshake(xKP, yKP.Public(), p2, nid)
+			ok2, k, a := ClientHandshake(xKP, yKP.Public(), p2, nid)
 			ks2, au2 = k.Bytes()[:], a.Bytes()[:]
+			ref2 = refntor.Client(x, X, Y, b2, id, true)
+			ok2s = ok2
 		case "Y":
 			bit := rapid.IntRange(0, 255).Draw(rt, "flipBit")
 			y2 := append([]byte(nil), Y...)
 			y2[bit/8] ^= 1 << uint(bit%8)
 			p2, _ := NewPublicKey(y2)
-			_, k, a := ClientHandshake(xKP, p2, idKP.Public(), nid)
+			ok2, k, a := ClientHandshake(xKP, p2, idKP.Public(), nid)
 			ks2, au2 = k.Bytes()[:], a.Bytes()[:]
+			ref2 = refntor.Client(x, X, y2, B, id, true)
+			ok2s = ok2
 		default:
 			bit := rapid.IntRange(0, 255).Draw(rt, "flipBit")
 			x2 := append([]byte(nil), X...)
 			x2[bit/8] ^= 1 << uint(bit%8)
 			p2, _ := NewPublicKey(x2)
-			_, k, a := ServerHandshake(p2, yKP, idKP, nid)
+			ok2, k, a := ServerHandshake(p2, yKP, idKP, nid)
 			ks2, au2 = k.Bytes()[:], a.Bytes()[:]
+			ref2 = refntor.Server(x2, y, Y, bPriv, B, id, true)
+			ok2s = ok2
+		}
+		// every call is judged against the reference, also this one (a call made
+		// right after a refused handshake must not be influenced by it)
+		if ok2s != ref2.OK || (ok2s && (!bytes.Equal(ks2, ref2.KeySeed) || !bytes.Equal(au2, ref2.Auth))) {
+			rt.Fatalf("VIOL[c08-differs-from-reference-after-history]: handshake with one bit of %s flipped, made after a hostile-key handshake (role %d, refused=%v) in the same process: got (%v, %x, %x), reference (%v, %x, %x)", field, role, deg, ok2s, ks2, au2, ref2.OK, ref2.KeySeed, ref2.Auth)
 		}
 		if bytes.Equal(ks2, ksS.Bytes()[:]) || bytes.Equal(au2, auS.Bytes()[:]) {
 			rt.Fatalf("VIOL[c08-transcript-not-bound]: flipping a bit of %s leaves KEY_SEED (%v) or AUTH (%v) unchanged", field, bytes.Equal(ks2, ksS.Bytes()[:]), bytes.Equal(au2, auS.Bytes()[:]))
@@ -238,6 +253,13 @@ func TestVerifC08Ntor(t *testing.T) {
 		}
 		if CompareAuth(auS, auS.Bytes()[:31]) || CompareAuth(auS, append(append([]byte(nil), auS.Bytes()[:]...), 0)) {
 			rt.Fatalf("VIOL[c08-compareauth]: CompareAuth accepts a value of the wrong length")
+		}
+		// 4. the honest exchange once more, after everything above (no call may
+		// leave anything behind that changes a later one)
+		okS2, ksS2, auS2 := ServerHandshake(xKP.Public(), yKP, idKP, nid)
+		okC2, ksC2, auC2 := ClientHandshake(xKP, yKP.Public(), idKP.Public(), nid)
+		if okS2 != okS || okC2 != okC || *ksS2 != *ksS || *auS2 != *auS || *ksC2 != *ksC || *auC2 != *auC {
+			rt.Fatalf("VIOL[c08-not-a-function-of-its-inputs]: the same honest handshake repeated after other handshakes in the same process gives different outputs (server ok %v->%v, client ok %v->%v)", okS, okS2, okC, okC2)
 		}
 		cls = append(cls, "flip-"+field, fmt.Sprintf("hostile-role-%d", role))
 		c.Case(ev.Hash(id, bPriv, x, y, peer, role, field), true, cls, func() any {
